@@ -19,10 +19,12 @@ pub open spec fn rpkt_ok(p: Packet, seq: int, channel: u8, id: u64, um: UnackedM
     &&& packet_fits(p)
     &&& packet_seq(p) == seq
     &&& match p {
-            Packet::SmallReliable { sequence, channel_id, messages } => channel_id == channel,
+            // inside the loop a SmallReliable packet is only ever the flush of the pending batch (second disjunct of rnew_pkts_ok)
+            Packet::SmallReliable { sequence, channel_id, messages } => false,
             Packet::ReliableSlice { sequence, channel_id, slice } => {
                 &&& channel_id == channel
                 &&& slice.message_id == id
+                &&& slice.slice_index < um->Sliced_num_slices
                 &&& um matches UnackedMessage::Sliced { message, num_slices, num_acked_slices, next_slice_to_send, acked, last_sent }
                 &&& slice.num_slices == um->Sliced_num_slices
                 &&& slice.authentic(um.msg()@)                                           // C01/C03: cut from this very message
@@ -65,6 +67,49 @@ pub proof fn lemma_rnew_push(old_p: Seq<Packet>, cur: Seq<Packet>, pk: Packet, s
     assert(cur.push(pk).subrange(0, old_p.len() as int) =~= cur.subrange(0, old_p.len() as int));
 }
 
+/// two queue entries are of the same kind (small / sliced into the same number of slices): sending never changes that
+pub open spec fn same_kind(a: UnackedMessage, b: UnackedMessage) -> bool {
+    &&& (a is Small) == (b is Small)
+    &&& (a is Sliced ==> a->Sliced_num_slices == b->Sliced_num_slices)
+}
+/// every id of a batch names a queued small message
+pub open spec fn batch_ids_small(b: Seq<(u64, Bytes)>, m: Map<u64, UnackedMessage>) -> bool {
+    forall|j: int| 0 <= j < b.len() ==> m.contains_key((#[trigger] b[j]).0) && m[b[j].0] is Small
+}
+/// C08: what a packet carries names queued messages of the kind it carries them as (small messages in a batch, a slice of a sliced message
+/// with an index inside its slice count) -- the premise under which an acknowledgement of that packet releases the right thing
+pub open spec fn carried_ok(p: Packet, m: Map<u64, UnackedMessage>) -> bool {
+    match p {
+        Packet::SmallReliable { sequence, channel_id, messages } => batch_ids_small(messages@, m),
+        Packet::ReliableSlice { sequence, channel_id, slice } => m.contains_key(slice.message_id) && m[slice.message_id] is Sliced
+            && slice.slice_index < m[slice.message_id]->Sliced_num_slices,
+        _ => true,
+    }
+}
+pub open spec fn all_carried_ok(s: Seq<Packet>, m: Map<u64, UnackedMessage>) -> bool {
+    forall|i: int| 0 <= i < s.len() ==> carried_ok(#[trigger] s[i], m)
+}
+pub proof fn lemma_carried_same_kinds(s: Seq<Packet>, b: Seq<(u64, Bytes)>, m1: Map<u64, UnackedMessage>, m2: Map<u64, UnackedMessage>)
+    requires all_carried_ok(s, m1), batch_ids_small(b, m1), m1.dom() == m2.dom(),
+        forall|id: u64| #[trigger] m1.contains_key(id) ==> same_kind(m1[id], m2[id]),
+    ensures all_carried_ok(s, m2), batch_ids_small(b, m2),
+{
+    assert forall|i: int| 0 <= i < s.len() implies carried_ok(#[trigger] s[i], m2) by {
+        assert(carried_ok(s[i], m1));
+        match s[i] {
+            Packet::SmallReliable { sequence, channel_id, messages } => {
+                assert forall|j: int| 0 <= j < messages@.len() implies m2.contains_key((#[trigger] messages@[j]).0) && m2[messages@[j].0] is Small by {
+                    assert(m1.contains_key(messages@[j].0));
+                }
+            },
+            Packet::ReliableSlice { sequence, channel_id, slice } => { assert(m1.contains_key(slice.message_id)); },
+            _ => {},
+        }
+    }
+    assert forall|j: int| 0 <= j < b.len() implies m2.contains_key((#[trigger] b[j]).0) && m2[b[j].0] is Small by {
+        assert(m1.contains_key(b[j].0));
+    }
+}
 /// the pending batch of small reliable messages and its serialized size
 #[verifier::opaque]
 pub open spec fn rsmall_ok(s: Seq<(u64, Bytes)>, bytes: int) -> bool {
